@@ -494,6 +494,13 @@ def _scalar(rng, cplx=False):
 
 
 def g_new(ctx, heap):
+    if ctx.rng.random() < 0.06:
+        # a one-element array of rank 1-3 (scalar-like, but not 0-d)
+        sym = ctx.rng.choice(list(ctx.syms))
+        idx = [specs.gen_index(ctx.rng, sym, max_charges=1, max_size=1)
+               for _ in range(ctx.rng.randint(1, 3))]
+        spec = ctx.new_spec(sym=sym, indices=idx, sparsity=0.0)
+        return [{"op": "new", "in": [], "out": [ctx.fresh()], "a": {"spec": spec}}]
     spec = ctx.new_spec()
     r = ctx.rng.random()
     if r < 0.4 and getattr(ctx, "constructors", True):
@@ -515,6 +522,11 @@ def _pick(ctx, heap, kinds="AF", pred=None, allow_bool=False):
           if (pred is None or pred(heap[n])) and (allow_bool or not _is_bool(heap[n]))]
     if not ns:
         return None
+    # a value that was just put into a rare state is strongly preferred for
+    # the next couple of operations, so that the state meets many operations
+    focus = getattr(ctx, "focus", None)
+    if focus and focus[0] in ns and ctx.rng.random() < 0.8:
+        return focus[0]
     # bias towards recent values (results of earlier steps)
     if ctx.rng.random() < 0.5:
         ns = ns[-4:]
@@ -982,6 +994,15 @@ def g_multiply_diagonal(ctx, heap):
     cm = [[jsonable(c), int(d)] for c, d in x.indices[ax].chargemap.items()]
     if len(cm) > 1 and rng.random() < 0.35:
         cm = [p for p in cm if rng.random() < 0.6] or cm[:1]
+    elif len(cm) > 1 and kind_of(x) == "F" and rng.random() < 0.5:
+        # drop a charge that carries a pending sign: leaves a sign entry
+        # without a block behind
+        from .snap import raw_phases
+        pend = sorted({sec[ax] for sec, p in raw_phases(x).items()
+                       if p == -1 and sec in x.blocks}, key=repr)
+        if pend:
+            drop = jsonable(rng.choice(pend))
+            cm = [p for p in cm if p[0] != drop] or cm
     dt = _dtype_of(x)
     vs = {"cm": cm, "seed": rng.randrange(2**31), "dtype": dt,
           "dist": rng.choice(["int", "normal"]), "positive": rng.random() < 0.5}
@@ -1125,8 +1146,13 @@ def g_unary(ctx, heap):
     return [{"op": op, "in": [n], "out": [ctx.fresh()], "a": a}]
 
 
+def _single_element(v):
+    return v.num_blocks == 1 and all(d == 1 for d in v.shape) and all(
+        int(np.size(b)) == 1 for b in v.blocks.values())
+
+
 def g_item(ctx, heap):
-    n = _pick(ctx, heap, "AF", pred=lambda v: v.ndim == 0 and v.num_blocks == 1)
+    n = _pick(ctx, heap, "AF", pred=_single_element)
     if n is None:
         return None
     return [{"op": "item", "in": [n], "out": [ctx.fresh()], "a": {}}]
@@ -1141,7 +1167,7 @@ def g_boolreduce(ctx, heap):
 
 
 def g_convert(ctx, heap):
-    n = _pick(ctx, heap, "AF", pred=lambda v: v.ndim == 0 and v.num_blocks == 1)
+    n = _pick(ctx, heap, "AF", pred=_single_element)
     if n is None:
         return None
     cplx = "complex" in _dtype_of(heap[n])
@@ -1301,14 +1327,36 @@ def _recon(gen, newop, nout):
 
 
 def g_solve(ctx, heap):
+    """a x = b with a general block-square matrix: the column table of ``a``
+    is the image of its row table under c -> s1*(Q - s0*c) (directions s0, s1
+    and total charge Q are free), so ``a`` may have two equally directed
+    indices, a non-zero charge and different row/column charge tables."""
     rng = ctx.rng
     steps = []
     kind = rng.choice(list(ctx.kinds))
     sym = rng.choice(list(ctx.syms))
+    g = GROUPS[sym]
     ix = specs.gen_index(rng, sym)
-    idx = [ix, specs.conj_index_spec(ix)]
-    sa = ctx.new_spec(kind=kind, sym=sym, indices=idx, sparsity=0.0,
-                      want_parity=0 if rng.random() < 0.7 else None)
+    r = rng.random()
+    if r < 0.5:
+        ix1 = specs.conj_index_spec(ix)
+        q = g.zero
+    else:
+        d1 = bool(rng.random() < 0.5)
+        q = g.zero if rng.random() < 0.4 else untuple(rng.choice(specs.CHARGE_POOL[sym]))
+        cm = {}
+        for c, d in ix["cm"]:
+            c = untuple(c)
+            t = g.add(q, g.neg(g.signed(c, ix["dual"])))
+            cm[g.signed(t, d1)] = d
+        ix1 = {"cm": [[jsonable(c), d] for c, d in sorted(cm.items())], "dual": d1}
+    idx = [ix, ix1]
+    try:
+        sa = ctx.new_spec(kind=kind, sym=sym, indices=idx, sparsity=0.0, charge=q)
+    except Exception:  # noqa: BLE001
+        return None
+    if not sa["sectors"]:
+        return None
     sa["dist"] = "normal"
     na = ctx.fresh()
     steps.append({"op": "new", "in": [], "out": [na], "a": {"spec": sa}})
@@ -1343,6 +1391,17 @@ def g_phase(ctx, heap):
         if not x.blocks:
             return None
         a["sector"] = jsonable(rng.choice(list(x.blocks.keys())))
+        if rng.random() < 0.3:
+            # a valid (charge-conserving) sector that has no block: its sign
+            # entry is legal and must stay unobservable
+            try:
+                allv = specs.valid_sectors(
+                    _symname(x), [specs.index_spec_of(ix) for ix in x.indices], x.charge)
+                absent = [t for t in allv if t not in x.blocks]
+                if absent:
+                    a["sector"] = jsonable(rng.choice(absent))
+            except Exception:  # noqa: BLE001
+                pass
     if ctx.inplace():
         a["inplace"] = True
     return [{"op": op, "in": [n], "out": _out(ctx, n, a), "a": a}]
@@ -1366,7 +1425,7 @@ GENERATORS = {
     "einsum": (g_einsum, 3),
     "multiply_diagonal": (g_multiply_diagonal, 3),
     "align_axes": (g_align_axes, 2),
-    "sync_charges": (g_sync_charges, 1),
+    "sync_charges": (g_sync_charges, 2),
     "fill_drop": (g_fill_drop, 1),
     "arith2": (g_arith2, 4),
     "arith1": (g_arith1, 3),
@@ -1406,9 +1465,58 @@ def swarm_weights(rng, base=None, p_off=0.25, keep=("new", "tensordot", "fuse"))
     return w
 
 
+def g_stale(ctx, heap):
+    """Put a fermionic value into the rarely reached state "a pending sign is
+    recorded for a sector that has no block" (legal; must stay unobservable)
+    and make it the focus of the following operations."""
+    rng = ctx.rng
+    n = _pick(ctx, heap, "F", pred=lambda v: v.ndim >= 1 and v.num_blocks >= 1)
+    if n is None:
+        return None
+    x = heap[n]
+    out = ctx.fresh()
+    steps = None
+    if rng.random() < 0.5:
+        try:
+            allv = specs.valid_sectors(
+                _symname(x), [specs.index_spec_of(ix) for ix in x.indices], x.charge)
+        except Exception:  # noqa: BLE001
+            allv = []
+        absent = [t for t in allv if t not in x.blocks]
+        if absent:
+            steps = [{"op": "phase_sector", "in": [n], "out": [out],
+                      "a": {"sector": jsonable(rng.choice(absent))}}]
+    if steps is None:
+        # sign on every block, then delete the blocks of one charge
+        ax = rng.randrange(x.ndim)
+        cm = [[jsonable(c), int(d)] for c, d in x.indices[ax].chargemap.items()]
+        if len(cm) < 2:
+            return None
+        cm.pop(rng.randrange(len(cm)))
+        t = ctx.fresh()
+        nv = ctx.fresh()
+        vs = {"cm": cm, "seed": rng.randrange(2**31), "dtype": _dtype_of(x),
+              "dist": "int", "positive": True}
+        steps = [
+            {"op": "phase_global", "in": [n], "out": [t], "a": {}},
+            {"op": "newvec", "in": [], "out": [nv], "a": {"spec": vs}},
+            {"op": "multiply_diagonal", "in": [t, nv], "out": [out], "a": {"axis": ax}},
+        ]
+    ctx.focus = [out, 3]
+    return steps
+
+
+GENERATORS["stale"] = (g_stale, 2)
+
+
 def gen_steps(ctx, heap):
     """One generated macro-step: a list of concrete steps."""
     rng = ctx.rng
+    focus = getattr(ctx, "focus", None)
+    if focus:
+        focus[1] -= 1
+        if focus[1] < 0 or focus[0] not in heap:
+            ctx.focus = None
     arrays = names_of(heap, "AFV")
     steps = []
     if len(arrays) > ctx.max_heap:
